@@ -309,9 +309,13 @@ func (a *analyzer) solve() *Result {
 	// per-object classes of forkOwners (one preparing invocation per object) that is one thread
 	// per object
 	objSingle := map[string]bool{}
+	elemSingle := map[string]bool{}
 	for _, sp := range a.spawns {
 		if sp.kind == "go" && !sp.inLoop && sp.ownerRecv {
 			objSingle[sp.class] = true
+		}
+		if sp.perElement {
+			elemSingle[sp.class] = true
 		}
 	}
 	// units executed once per object of a forkOwners type: the target of `go x.Run()` and what
@@ -408,7 +412,7 @@ func (a *analyzer) solve() *Result {
 			hb := append([]string{}, ac.hb...)
 			sort.Strings(hb)
 			for _, t := range ths {
-				f := Fact{Func: u.name, Line: ac.line, Cls: ac.cls, Kind: ac.kind, Locks: locks, Thread: t, Single: single[t] || (forkOwners[ac.owner] && objSingle[t]),
+				f := Fact{Func: u.name, Line: ac.line, Cls: ac.cls, Kind: ac.kind, Locks: locks, Thread: t, Single: single[t] || (forkOwners[ac.owner] && objSingle[t]) || (elementOwners[ac.owner] && elemSingle[t]),
 					Init: ac.init, Racy: racy, Atomic: ac.atomic, Pre: pre, Post: post, HB: hb, Use: ac.use, Live: live, Valid: valid}
 				key := fmt.Sprintf("%s|%s|%s|%v|%s|%v|%v|%v|%v|%v|%v|%v|%v|%v", f.Func, f.Cls, f.Kind, f.Locks, f.Thread, f.Init, f.Racy, f.Atomic, f.Pre, f.Post, f.HB, f.Use, f.Live, f.Valid)
 				if seen[key] {
